@@ -29,7 +29,15 @@ import (
 var (
 	verifRoot = envOr("VERIF_ROOT", "/verif")
 	repoRoot  = envOr("VERIF_REPO", "/repo")
+	outRoot   = envOr("VERIF_OUT", "") // evidence/replay output directory (default <verifRoot>/evidence)
 )
+
+func evidenceDir() string {
+	if outRoot != "" {
+		return outRoot
+	}
+	return filepath.Join(verifRoot, "evidence")
+}
 
 func envOr(k, d string) string {
 	if v := os.Getenv(k); v != "" {
@@ -279,9 +287,9 @@ type harnessReport struct {
 }
 
 func tierOpts(thorough bool) explore.Opts {
-	o := explore.Opts{Workers: 16, MaxPaths: 6000, Deadline: 240 * time.Second, SolverMs: 15000, Thorough: thorough}
+	o := explore.Opts{Workers: 16, MaxPaths: 80000, Deadline: 300 * time.Second, SolverMs: 15000, Thorough: thorough}
 	if thorough {
-		o.MaxPaths = 200000
+		o.MaxPaths = 2000000
 		o.Deadline = 40 * time.Minute
 		o.SolverMs = 60000
 		o.CrossCheck = true
@@ -318,7 +326,7 @@ func cmdCheck(prop string, tier string) int {
 		fmt.Printf("INCONCLUSIVE property=%s reason=no harness\n", prop)
 		return 3
 	}
-	os.MkdirAll(filepath.Join(verifRoot, "evidence", "replay"), 0o755)
+	os.MkdirAll(filepath.Join(evidenceDir(), "replay"), 0o755)
 	os.MkdirAll(filepath.Join(verifRoot, ".work"), 0o755)
 
 	// known findings: replay each witness on the current tree
@@ -416,7 +424,7 @@ func cmdCheck(prop string, tier string) int {
 			for k := range knownOn {
 				rf.Known = append(rf.Known, k)
 			}
-			f := filepath.Join(verifRoot, "evidence", "replay", fmt.Sprintf("%s_%s_%s_%d.json", prop, h.Name, sanitize(v.AssertID), perID[v.AssertID]))
+			f := filepath.Join(evidenceDir(), "replay", fmt.Sprintf("%s_%s_%s_%d.json", prop, h.Name, sanitize(v.AssertID), perID[v.AssertID]))
 			b, _ := json.MarshalIndent(rf, "", " ")
 			ioutil.WriteFile(f, b, 0o644)
 			files = append(files, f)
@@ -574,8 +582,8 @@ func writeEvidence(prop, tier string, seed int, reps []*harnessReport, known, in
 		"assumptions": assumptionsFor(prop, snames),
 	}
 	b, _ := json.MarshalIndent(ev, "", " ")
-	os.MkdirAll(filepath.Join(verifRoot, "evidence"), 0o755)
-	ioutil.WriteFile(filepath.Join(verifRoot, "evidence", prop+".json"), b, 0o644)
+	os.MkdirAll(evidenceDir(), 0o755)
+	ioutil.WriteFile(filepath.Join(evidenceDir(), prop+".json"), b, 0o644)
 }
 
 func round3(f float64) float64 { return float64(int64(f*1000+0.5)) / 1000 }
